@@ -72,6 +72,7 @@ type Exec struct {
 	assignAll       bool
 	qcount          int
 	solv            *Solvers
+	solvRef         *Solvers
 }
 
 type pathEnd struct{}
